@@ -206,13 +206,31 @@ def Coll.isSugar : Coll → Bool
 /-- the invariants the Go constructors establish that the theorems need -/
 def Bucket.wf : Bucket → Bool
   | .dict m => decide ((m.map (·.1)).Nodup)
+  | .bytes _ bs => bs.all (fun b => decide (b < 256))
   | .rel _ name _ => decide (name ≠ "@")
-  | .other xs => !xs.isEmpty && xs.all (fun x => !isPair x)
+  | .other xs => !xs.isEmpty && xs.all (fun x => !isPair x) && xs.any (fun x => decide (x ≠ .tup []))
   | _ => true
 
 def Coll.wf : Coll → Bool
   | .one b => b.wf
   | .union bs => bs.all Bucket.wf
+  | _ => true
+
+/-- what `Count()` relies on: a frozen set / map holds every member once, and the buckets of a
+UnionSet are disjoint -/
+def Bucket.wfCount : Bucket → Bool
+  | .dict m => decide ((m.map (·.1)).Nodup) && m.all (fun e => decide e.2.Nodup)
+  | .rel _ name rows => decide (name ≠ "@") && decide rows.Nodup
+  | .other xs => decide xs.Nodup
+  | _ => true
+
+def disjointB : List Bucket → Bool
+  | [] => true
+  | b :: r => b.members.all (fun x => !decide (x ∈ bucketsMembers r)) && disjointB r
+
+def Coll.wfCount : Coll → Bool
+  | .one b => b.wfCount
+  | .union bs => bs.all Bucket.wfCount && disjointB bs
   | _ => true
 
 /-! ## how the set builder sorts members into buckets (`v.getBucket()` after `NewTuple`) -/
@@ -224,8 +242,15 @@ inductive Class where
 def classify (x : V) : Class :=
   match asPair x with
   | some (.num i, name, v) =>
-    if name = "@char" then (match v with | .num c => .char i c | _ => .pair (.num i) name v)
-    else if name = "@byte" then (match v with | .num b => .byte i b | _ => .pair (.num i) name v)
+    -- specialTuple: "a @char or @byte must be in range, otherwise the tuple stays generic"
+    if name = "@char" then
+      (match v with
+       | .num c => if 0 ≤ c ∧ c ≤ 1114111 then .char i c else .pair (.num i) name v
+       | _ => .pair (.num i) name v)
+    else if name = "@byte" then
+      (match v with
+       | .num b => if 0 ≤ b ∧ b ≤ 255 then .byte i b else .pair (.num i) name v
+       | _ => .pair (.num i) name v)
     else if name = "@item" then .item i v
     else if name = "@value" then .entry (.num i) v
     else .pair (.num i) name v
@@ -287,38 +312,88 @@ def safeCall (S : V) (k : Arg) (d : V) : Bool × Res V :=
   | .error .noReturn => (true, .ok d)
   | r => (false, r)
 
-/-- the rule `>>` imposes on strings and byte arrays: a char stays a char, a byte a byte
-(under a key that is not a number — no string or byte array — it at least stays a number) -/
-def valueOk (name : String) (k v : V) : Bool :=
-  match k with
-  | .num _ =>
-    if name = "@char" then (match v with | .num n => decide (0 ≤ n ∧ n < 2147483648) | _ => false)
-    else if name = "@byte" then (match v with | .num n => decide (0 ≤ n ∧ n < 256) | _ => false)
-    else true
-  | _ => if name = "@char" ∨ name = "@byte" then isNum v else true
+/-- a member that is neither a pair nor the empty tuple (`true` = `{()}` answers like the empty set) -/
+def foreign (x : V) : Bool := !isPair x && decide (x ≠ .tup [])
+
+/-- a call on ANY set: one foreign member makes it "cannot call sets with elements not matching
+(@: _, _: _)" (class `other`); otherwise the pairs answer as in `call` -/
+def callAny (S : V) (k : Arg) : Res V :=
+  match S with
+  | .set xs => if xs.any foreign then .error .other else call S k
+  | _ => .error .other
+
+/-- what a call argument EXPRESSION evaluates to: a value, or it fails -/
+inductive ArgX where
+  | val (a : Arg)
+  | missingAttr        -- fails with a missing-attribute error, e.g. `(a: 1).b`
+  | otherErr           -- fails any other way
+  deriving DecidableEq, Inhabited
+
+/-- `S(x)?:d` with an argument expression: the fallback is for "no value" only; a failing argument
+is an error (docs/lang/exprs.md: only the accesses that end with `?` are allowed to fail) -/
+def safeCallX (S : V) (x : ArgX) (d : V) : Bool × Res V :=
+  match x with
+  | .val a => safeCall S a d
+  | _ => (false, .error .other)
+
+def charMember (x : V) : Bool :=
+  match asPair x with
+  | some (.num _, name, .num c) => name = "@char" && decide (0 ≤ c)
+  | _ => false
+
+def byteMember (x : V) : Bool :=
+  match asPair x with
+  | some (.num _, name, .num b) => name = "@byte" && decide (0 ≤ b ∧ b < 256)
+  | _ => false
+
+/-- the meanings Go holds as a String: non-empty, every member `(@: int, @char: c)` with `c ≥ 0` -/
+def isStringV : V → Bool
+  | .set xs => !xs.isEmpty && xs.all charMember
+  | _ => false
+
+/-- … and as a byte array: non-empty, every member `(@: int, @byte: b)` with `0 ≤ b < 256` -/
+def isBytesV : V → Bool
+  | .set xs => !xs.isEmpty && xs.all byteMember
+  | _ => false
+
+/-- what `>>` demands of the transformed values depends on what the collection is -/
+inductive Mode where
+  | string    -- a string: "string >> … must produce valid chars"
+  | bytes     -- a byte array: "bytes >> … must produce valid bytes"
+  | generic   -- any other set of pairs: a @char or @byte value must stay a number, nothing else
+  deriving DecidableEq, Inhabited
+
+def modeOf (S : V) : Mode := if isStringV S then .string else if isBytesV S then .bytes else .generic
+
+def valueOk (m : Mode) (name : String) (v : V) : Bool :=
+  match m with
+  | .string => (match v with | .num n => decide (0 ≤ n ∧ n < 2147483648) | _ => false)
+  | .bytes => (match v with | .num n => decide (0 ≤ n ∧ n < 256) | _ => false)
+  | .generic => if name = "@char" ∨ name = "@byte" then isNum v else true
 
 /-- transform one member: the key and the attribute name stay, the value becomes `f k v` -/
-def mapMember (f : F) (x : V) : Res V :=
+def mapMember (m : Mode) (f : F) (x : V) : Res V :=
   match asPair x with
   | some (k, name, v) =>
     (match f k v with
-     | .ok w => if valueOk name k w then .ok (V.pair name k w) else .error .other
+     | .ok w => if valueOk m name w then .ok (V.pair name k w) else .error .other
      | .error e => .error e)
   | none => .error .other
 
-def mapMembers (f : F) : List V → Res (List V)
+def mapMembers (m : Mode) (f : F) : List V → Res (List V)
   | [] => .ok []
   | x :: r =>
-    match mapMember f x with
+    match mapMember m f x with
     | .error e => .error e
     | .ok y =>
-      match mapMembers f r with
+      match mapMembers m f r with
       | .ok ys => .ok (y :: ys)
       | .error e => .error e
 
 /-- `S >> f` / `S >>> f`: every key kept, every value transformed -/
-def mapVals (f : F) : V → Res V
-  | .set xs => (match mapMembers f xs with | .ok ys => .ok (V.mkSet ys) | .error e => .error e)
+def mapVals (f : F) (S : V) : Res V :=
+  match S with
+  | .set xs => (match mapMembers (modeOf S) f xs with | .ok ys => .ok (V.mkSet ys) | .error e => .error e)
   | _ => .error .other
 
 /-- the keys of a keyed collection (with multiplicity of distinct members) -/
@@ -481,6 +556,15 @@ def safeCall (c : Coll) (k : Arg) (d : V) : Bool × Res V :=
   | .error e => (false, .error e)
   | .ok none => (true, .ok d)
   | .ok (some v) => (false, .ok v)
+
+/-- compileTailFunc + safeCallback with an argument expression: `arg.Eval` failing with a
+ContextErr{MissingAttrError} is caught by safeCallback just like a missing attribute of the
+accessed tuple, so the fallback is taken (KF-safecall-arg-missing-attr); other failures pass -/
+def safeCallX (c : Coll) (x : Spec.ArgX) (d : V) : Bool × Res V :=
+  match x with
+  | .val a => safeCall c a d
+  | .missingAttr => (true, .ok d)
+  | .otherErr => (false, .error .other)
 
 /-! ### the set builder (SetBuilder.Add/Finish, asString, asBytes, asArray, NewDict) -/
 
@@ -651,8 +735,33 @@ def shiftAll (n : Int) : List V → Res (List V)
       | .ok ys => .ok (y :: ys)
       | .error e => .error e
 
-/-- `a.Count()`: the number of members (C01's obligation; trusted here) -/
-def count (c : Coll) : Nat := Spec.card c.den
+/-- `String.holes`: NewOffsetString and asString (as repaired) set it to the number of negative runes -/
+def holesOf (rs : List Int) : Nat := (rs.filter (fun r => decide (r < 0))).length
+
+def dictCount : List (V × List V) → Nat
+  | [] => 0
+  | (_, vs) :: r => vs.length + dictCount r
+
+/-- the `Count()` method of each set type -/
+def bucketCount : Bucket → Nat
+  | .str _ rs => rs.length - holesOf rs                          -- String.Count: len(s.s) - s.holes
+  | .bytes _ bs => bs.length                                     -- Bytes.Count: len(b.b)
+  | .arr _ vs => (vs.filter Option.isSome).length                -- Array.count (non-nil values)
+  | .dict m => dictCount m                                       -- Dict.Count: every value of a multi-valued key
+  | .rel _ _ rows => rows.length                                 -- Relation.Count: rows.Count()
+  | .other xs => xs.length                                       -- GenericSet.Count
+  | .tt => 1                                                     -- TrueSet.Count
+
+def bucketsCount : List Bucket → Nat
+  | [] => 0
+  | b :: r => bucketCount b + bucketsCount r                     -- UnionSet.Count: the sum over the buckets
+
+/-- `a.Count()` as `Concatenate` calls it -/
+def count : Coll → Nat
+  | .empty => 0
+  | .true_ => 1
+  | .one b => bucketCount b
+  | .union bs => bucketsCount bs
 
 def concat (a b : Coll) : Res Coll :=
   match shiftAll (Int.ofNat (count a)) b.members with
